@@ -288,12 +288,23 @@ def db_roundtrip(res, inj, scratch, mps, compact_flags, dialect):
                 except UnicodeEncodeError:
                     res.count("discarded.not_encodable")
                     continue
-                db.insert(mp.to_real(), compact_key_prefixes=compact)
+                try:
+                    db.insert(mp.to_real(), compact_key_prefixes=compact)
+                except Exception as e:
+                    db.close()
+                    res.violate(Violation("C05", "insert-of-valid-point-raises", {"point": mp.to_json(), "compact": compact, "dialect": repr(dialect), "exc": f"{type(e).__name__}: {e}"[:200]},
+                                          replay={"points": [mp.to_json()], "dialect": repr(dialect)}, features={}))
+                    return
                 stored.append(mp)
             db.close()
-            db2 = TinyFlux(path, auto_index=bool(len(stored) % 2), access_mode="r", **dialect)
-            got = db2.all(sorted=False)
-            db2.close()
+            try:
+                db2 = TinyFlux(path, auto_index=bool(len(stored) % 2), access_mode="r", **dialect)
+                got = db2.all(sorted=False)
+                db2.close()
+            except Exception as e:
+                res.violate(Violation("C05", "database-cannot-read-its-own-file", {"stored": len(stored), "dialect": repr(dialect), "exc": f"{type(e).__name__}: {e}"[:200], "points": [m.to_json() for m in stored[:5]]},
+                                      replay={"points": [m.to_json() for m in stored], "dialect": repr(dialect)}, features={}))
+                return
         res.count("db_roundtrips")
         if len(got) != len(stored):
             res.violate(Violation("C05", "reopen-wrong-number-of-points", {"stored": len(stored), "read": len(got), "dialect": repr(dialect), "points": [m.to_json() for m in stored[:5]]}, replay={"points": [m.to_json() for m in stored], "dialect": repr(dialect)}, features={}))
